@@ -4,7 +4,8 @@
   "sim": a whole-simulation scenario in the format of `AcnModel/WireSim.lean` whose scheduler fails
          at the chosen period, plus "resume": the scheduler that continues from the failed state
          (same semantics as `Drivers/C01.lean`); answer: the resumed result with "first" = the
-         failed run.
+         failed run and "crash_store" = the model's encoding of the failed state as an object store
+         (`RegistrySim.encode`, root id 0), to be compared with the implementation's `to_json()`.
   "reg": {"root": id, "store": [[id, class, [[attr, <val>], …]], …]} — an object store as written by
          `to_json` (listed in ANY order); <val> = {"s": text} | {"r": id} | {"l": [{"s": text} | {"r": id}, …]}.
          answer: the order in which `dump` enters the objects, whether `load (dump st)` reproduces
@@ -12,6 +13,7 @@
 -/
 import AcnModel.WireSim
 import AcnModel.Registry
+import AcnModel.RegistrySim
 open Lean Acn Acn.Wire Acn.EventCore Acn.Sim
 
 namespace Acn.RegWire
@@ -78,6 +80,11 @@ def handleReg (j : Json) : Except String Json := do
 
 end Acn.RegWire
 
+def showFloat : Acn.RegistrySim.Show Float :=
+  { num := fun x => toString (bitsOfF x),
+    mat := fun m => "[" ++ ",".intercalate (m.rows.map fun r =>
+             "[" ++ ",".intercalate (r.map fun x => toString (bitsOfF x)) ++ "]") ++ "]" }
+
 def handleSim (j : Json) : Except String Json := do
   let cfg ← parseSimCfg j
   let sched ← parseSched (← j.getObjVal? "sched")
@@ -91,7 +98,10 @@ def handleSim (j : Json) : Except String Json := do
     | some _ =>
       let sched2 ← parseSched rj
       let r2 := Sim.run cfg sched2 fuel r.1
-      pure ((jResult cfg r2).setObjVal! "first" (jResult cfg r))
+      -- the model's own `to_json` of the crash-point state (AcnModel/RegistrySim.lean)
+      let st := Acn.RegistrySim.encode showFloat cfg r.1
+      pure (((jResult cfg r2).setObjVal! "first" (jResult cfg r)).setObjVal! "crash_store"
+        (jList Acn.RegWire.jObj st))
 
 def handle (j : Json) : Except String Json := do
   let s ← match j.getObjVal? "sim" with
